@@ -77,6 +77,8 @@ template <class Dom> struct fuzz {
       for (int q = 0; q < n1; q++) if (!step(d1, c1, depth + 1)) return false;
       log("} else {"); for (int q = 0; q < n2; q++) if (!step(d2, c2, depth + 1)) return false;
       log(widen ? "} widen" : "} join");
+      if (d1 <= d2) { if (!check(d2, c1, "d1 <= d2 answered yes (states of d1 against d2)")) return false; }
+      if (d2 <= d1) { if (!check(d1, c2, "d2 <= d1 answered yes (states of d2 against d1)")) return false; }
       d = widen ? (d1 || d2) : (d1 | d2); cs = c1; cs.insert(c2.begin(), c2.end()); cap(cs, r);
       return check(d, cs, widen ? "widen" : "join");
     }
